@@ -1176,6 +1176,12 @@ impl World {
         }
     }
 
+    /// An application did deferred work (budgeted reads, held readers) during the last flush and
+    /// may have more to do: the driver owes it another poll.
+    pub fn wake_pending(&self) -> bool {
+        self.pending_wake
+    }
+
     /// Drain application events of one connection.
     fn drain_events(&mut self, ei: usize, ch: usize) -> bool {
         let mut any = false;
